@@ -44,6 +44,7 @@ func main() {
 	exports := flag.String("exports", "/verif/exports", "export files directory")
 	modcache := flag.String("modcache", "", "GOMODCACHE (for exports/_mod and -instr of module files)")
 	noStmt := flag.Bool("nostmt", false, "only sync-operation points, no statement-level points")
+	stmtFuncs := flag.String("stmtfuncs", "", "comma-separated function/method names: statement-level points only inside these (default: everywhere)")
 	flag.Var(&instr, "instr", "file to instrument (relative to repo, or absolute)")
 	flag.Var(&replaces, "replace", "dst=src raw overlay entry (dst relative to repo or absolute)")
 	flag.Parse()
@@ -90,7 +91,7 @@ func main() {
 		}
 		in := src
 		out := filepath.Join(*work, fmt.Sprintf("instr_%02d_%s", i, filepath.Base(src)))
-		data, err := instrument(in, !*noStmt)
+		data, err := instrument(in, !*noStmt, *stmtFuncs)
 		if err != nil {
 			fatal("instrument %s: %v", in, err)
 		}
@@ -130,7 +131,13 @@ type rewriter struct {
 	tmp        int
 }
 
-func instrument(path string, stmtPoints bool) ([]byte, error) {
+func instrument(path string, stmtPoints bool, stmtFuncs string) ([]byte, error) {
+	only := map[string]bool{}
+	for _, f := range strings.Split(stmtFuncs, ",") {
+		if f != "" {
+			only[f] = true
+		}
+	}
 	fset := token.NewFileSet()
 	f, err := parser.ParseFile(fset, path, nil, parser.ParseComments)
 	if err != nil {
@@ -184,7 +191,9 @@ func instrument(path string, stmtPoints bool) ([]byte, error) {
 	}
 	for _, d := range f.Decls {
 		if fd, ok := d.(*ast.FuncDecl); ok && fd.Body != nil {
+			rw.stmtPoints = stmtPoints && (len(only) == 0 || only[fd.Name.Name])
 			rw.block(fd.Body)
+			rw.stmtPoints = stmtPoints && len(only) == 0
 		} else if gd, ok := d.(*ast.GenDecl); ok {
 			// function literals in package-level var initialisers
 			ast.Inspect(gd, func(n ast.Node) bool {
